@@ -110,7 +110,7 @@ func c20LoadCorpus(repo string) (out []c20CorpusMsg, skipped int) {
 
 // A task is one codec call whose result is digested.
 type c20Task struct {
-	Kind string `json:"kind"` // "kmip" (message of the corpus) or "syn" (harness type)
+	Kind string `json:"kind"` // "kmip" (message of the corpus), "syn" (harness type) or "val" (generic tree decoded into ttlv.Value)
 	Op   string `json:"op"`   // "enc" or "dec"
 	Enc  string `json:"enc"`  // ttlv | xml | json | text
 	Resp bool   `json:"resp,omitempty"`
@@ -232,14 +232,17 @@ func c20Exec(t c20Task, p c20Prepared) (r c20Raw) {
 		return c20Raw{class: "ok", out: c20SynMarshal(t.Enc, t.Tag, p.val)}
 	}
 	var ptr any
-	if t.Kind == "kmip" {
+	switch t.Kind {
+	case "kmip":
 		ptr = c20NewMsg(t.Resp)
-	} else {
+	case "val":
+		ptr = &ttlv.Value{}
+	default:
 		ptr = reflect.New(c20Roots[t.Root]).Interface()
 	}
 	in := append([]byte(nil), t.In...)
 	var err error
-	if t.Kind == "kmip" {
+	if t.Kind == "kmip" || t.Kind == "val" {
 		err = c20Unmarshal(t.Enc, in, ptr)
 	} else {
 		err = c20SynUnmarshal(t.Enc, t.Tag, in, ptr)
@@ -278,7 +281,7 @@ func c20Finish(t c20Task, r c20Raw, full bool) (res c20TaskResult) {
 					res.Class = "panic-reencode"
 				}
 			}()
-			if t.Kind == "kmip" {
+			if t.Kind == "kmip" || t.Kind == "val" {
 				out = ttlv.MarshalTTLV(r.val)
 			} else {
 				out = c20SynMarshal("ttlv", t.Tag, reflect.ValueOf(r.val).Elem().Interface())
